@@ -73,7 +73,7 @@ func (a *Acc) Violate(v Violation) {
 			return
 		}
 	}
-	if len(a.Violations) < 400 {
+	if len(a.Violations) < 50000 {
 		a.Violations = append(a.Violations, v)
 	}
 	a.Counters["violating_cases"]++
